@@ -1,6 +1,7 @@
 package main
 
 import (
+	"sync"
 	"bytes"
 	"encoding/json"
 	"fmt"
@@ -367,7 +368,15 @@ func (p *Program) runRACBatch(keys []string, tier int, capN int64, seed int64, l
 	for _, key := range keys {
 		res := &RACResult{Func: key}
 		out[key] = res
-		body, universe, err := p.racBody(key, tier, capN, seed, lits, len(order))
+		fcap := capN
+		if c := p.Contracts[key]; c != nil && lits == nil {
+			if tier == 0 && c.CapQuick > 0 {
+				fcap = c.CapQuick
+			} else if tier > 0 && c.CapThorough > 0 {
+				fcap = c.CapThorough
+			}
+		}
+		body, universe, err := p.racBody(key, tier, fcap, seed, lits, len(order))
 		if err != nil {
 			res.Error = err.Error()
 			continue
@@ -410,6 +419,16 @@ func (p *Program) runRACBatch(keys []string, tier int, capN int64, seed int64, l
 		fmt.Sprintf("-timeout=%ds", timeoutS), "-v", "-run", "^TestVerifRAC_", ".")
 	cmd.Dir = p.Dir
 	cmd.Env = append(os.Environ(), "GOFLAGS=-mod=mod", "GOPROXY=off", "TMPDIR="+tmp)
+	for _, k := range order {
+		if c := p.Contracts[k]; c != nil && c.NeedsCLI {
+			j, t, err := buildCLIs(workDir)
+			if err != nil {
+				return fail("cannot build the jd binaries: " + err.Error())
+			}
+			cmd.Env = append(cmd.Env, "VERIF_JD_BIN="+j, "VERIF_JDTOP_BIN="+t)
+			break
+		}
+	}
 	var outBuf bytes.Buffer
 	cmd.Stdout = &outBuf
 	cmd.Stderr = &outBuf
@@ -443,7 +462,7 @@ func (p *Program) runRACBatch(keys []string, tier int, capN int64, seed int64, l
 			if idx, rest, ok := parseIdx(strings.TrimPrefix(line, "VERIF-RAC-SUMMARY ")); ok {
 				r := out[order[idx]]
 				fmt.Sscanf(rest, "cases=%d pre=%d fails=%d total=%d", &r.Cases, &r.PreOK, &r.Fails, &r.Total)
-				r.Exhaustive = r.Total <= capN
+				r.Exhaustive = r.Total <= r.Cases
 				saw[idx] = true
 			}
 		}
@@ -470,3 +489,41 @@ func (p *Program) runRACBatch(keys []string, tier int, capN int64, seed int64, l
 }
 
 var _ = ssa.Function{}
+
+var cliOnce sync.Once
+var cliJD, cliTop string
+var cliErr error
+
+// buildCLIs builds both binaries from /repo's working tree (with any self-test overlay applied).
+func buildCLIs(workDir string) (string, string, error) {
+	cliOnce.Do(func() {
+		dir := filepath.Join(workDir, "..", "clibin")
+		os.MkdirAll(dir, 0o755)
+		dir, _ = filepath.Abs(dir)
+		cliJD, cliTop = filepath.Join(dir, "jd-v2"), filepath.Join(dir, "jd-top")
+		ovArgs := []string{}
+		if len(loadOverlay) > 0 {
+			ov := map[string]map[string]string{"Replace": {}}
+			for f, data := range loadOverlay {
+				of := filepath.Join(dir, "ov_"+filepath.Base(f))
+				os.WriteFile(of, data, 0o644)
+				ov["Replace"][f] = of
+			}
+			ovData, _ := json.Marshal(ov)
+			ovFile := filepath.Join(dir, "overlay.json")
+			os.WriteFile(ovFile, ovData, 0o644)
+			ovArgs = []string{"-overlay", ovFile}
+		}
+		for _, b := range []struct{ out, dir, pkg string }{{cliJD, "/repo/v2", "./jd"}, {cliTop, "/repo", "."}} {
+			args := append(append([]string{"build"}, ovArgs...), "-o", b.out, b.pkg)
+			cmd := exec.Command("go", args...)
+			cmd.Dir = b.dir
+			cmd.Env = append(os.Environ(), "GOFLAGS=-mod=mod", "GOPROXY=off")
+			if out, err := cmd.CombinedOutput(); err != nil {
+				cliErr = fmt.Errorf("%v: %s", err, out)
+				return
+			}
+		}
+	})
+	return cliJD, cliTop, cliErr
+}
